@@ -119,7 +119,9 @@ int64_t nowNs() { return g.time_base + (int64_t)g.steps * 50; }
 int64_t realtimeNs() { return nowNs() + g.real_off; }
 void chargeCall() { g.time_base += 1000; }
 bool inTail() { return g.tail; }
-void requestTail() { g.tail_requested = true; }
+static void enterTail();
+static void drawNext(struct Task& t);
+void requestTail();
 int numTasks() { return g.ntasks; }
 const char* taskName(int id) { return g.t[id].name; }
 bool isBlocked(int id) { return id >= 1 && id <= g.ntasks && g.t[id].state == 2; }
@@ -191,7 +193,7 @@ static void mapStacks() {
 }
 bool isStackAddr(const void* p) { return (const char*)p >= STACK_BASE && (const char*)p < STACK_BASE + STACK_SIZE * (MAXT + 1); }
 
-static void drawNext(Task& t) {
+static void drawNext(struct Task& t) {
   // next_preempt: replay mode only (from the list). next_event: when the slow path must run (fairness, tail quantum, budget).
   t.next_preempt = ~0ULL;
   if (g.tail) { t.next_event = t.yields + 200; return; }
@@ -213,7 +215,10 @@ int spawn(TaskFn fn, void* arg, const char* name) {
   if (!id) stubError("too many tasks");
   Task& t = g.t[id];
   std::vector<int>* j = t.joiners;
+  // a re-used slot keeps its yield and decision counters running, so that (task, counter) keys stay unique within a run
+  uint64_t keepYields = t.yields; uint32_t keepCnt[K_NKINDS]; memcpy(keepCnt, t.cnt, sizeof keepCnt);
   memset(&t, 0, sizeof t);
+  t.yields = keepYields; memcpy(t.cnt, keepCnt, sizeof keepCnt);
   t.joiners = j; if (t.joiners) t.joiners->clear();
   t.state = 1; t.fn = fn; t.arg = arg; t.name = name; t.deadline = -1;
   char* top = STACK_BASE + (id + 1) * STACK_SIZE;
@@ -281,6 +286,8 @@ static void enterTail() {
   logEvent("tail");
 }
 
+void requestTail() { if (!g.in_run || g.tail) return; enterTail(); if (g.cur) drawNext(g.t[g.cur]); }
+
 // called when cur cannot continue (blocked or finished)
 static void scheduleAway() {
   if (g.tail_requested && !g.tail) enterTail();
@@ -316,7 +323,7 @@ static void slowYield(bool pre) {
       switchTo(next);   // drawNext runs when we are switched back in
       return;
     }
-    t.switched_in_at = t.yields;
+    if (!recorded) t.switched_in_at = t.yields;   // (a random pre-emption that found nobody to run leaves no trace: replay cannot see it)
   }
   drawNext(t);
 }
@@ -331,7 +338,7 @@ static inline void yieldCommon(bool sync) {
     if (g.spec->replay) pre = (t.yields == t.next_preempt);
     else { int k = sync ? g.cfg.sync_switch_log2 : g.cfg.mem_switch_log2; if (k < 64 && (drnd() & ((1ULL << k) - 1)) == 0) pre = true; }
   }
-  if (pre || t.yields >= t.next_event) slowYield(pre);
+  if (pre || t.yields >= t.next_event || (!g.tail && g.steps >= g.cfg.step_budget)) slowYield(pre);
 }
 void yieldSync() { yieldCommon(true); }
 void yieldMem() { yieldCommon(false); }
